@@ -28,7 +28,7 @@ Record rst := mkRS {
   r_queue   : list N;
   r_workers : list worker;
   r_slots   : nat;                 (* free semaphore slots *)
-  r_buffer  : list (option N);     (* fetched single-entry logs: Some h, or None = empty log of a failed fetch *)
+  r_buffer  : list (option N);     (* fetched single-entry logs: Some h, or None = empty log of a failed fetch (pinned commit only: with m_retry nothing is buffered for a failed fetch) *)
   r_pending : list (list (option N));  (* load-end batches emitted, not yet merged (FIFO) *)
   r_cancel  : list N;              (* cancelled contexts *)
   r_log     : list N               (* hashes in the store's log *)
@@ -148,7 +148,7 @@ Definition rstep (m : rmech) (U : list uent) (s : rst) (l : rlabel) : option rst
       (* a fetch under a cancelled context, or of an entry that does not exist, yields nothing *)
       let got := if ok && (m_detach m || negb (memN ctx (r_cancel s))) then ufind h U else None in
       let s1 := mkRS (r_tasks s) (r_queue s) (del_worker i (r_workers s)) (S (r_slots s))
-                     (r_buffer s ++ [match got with Some _ => Some h | None => None end])
+                     (r_buffer s ++ match got with Some _ => [Some h] | None => if m_retry m then [] else [None] end)
                      (r_pending s) (r_cancel s) (r_log s) in
       let s2 := match got with
                 | Some e => enqueue_all ctx s1 (u_links e)
